@@ -1513,6 +1513,21 @@ impl<'a> CExec<'a> {
                     Value::from_lanes(lanes?, r.is_vector())
                 }
             }
+            // metal::ctz / metal::clz: the operand type; the width of the type (32) when no bit is set
+            ("ctz" | "clz", false) => {
+                let low = name == "ctz";
+                let lanes: R<Vec<Scalar>> = vals[0]
+                    .lanes()?
+                    .iter()
+                    .map(|s| match s {
+                        Scalar::UInt(v) => Ok(Scalar::UInt(if low { v.trailing_zeros() } else { v.leading_zeros() })),
+                        Scalar::Int(v) => Ok(Scalar::Int(if low { v.trailing_zeros() } else { v.leading_zeros() } as i32)),
+                        Scalar::Undef(_) => Err(Trap::Unspecified("bit scan of a value that was never written".into())),
+                        _ => unsup("metal bit scan on a non 32 bit integer operand"),
+                    })
+                    .collect();
+                Value::from_lanes(lanes?, vals[0].is_vector())
+            }
             ("firstbitlow", true) => m(Math::FirstBitLow, &vals)?,
             ("firstbithigh", true) => m(Math::FirstBitHigh, &vals)?,
             ("sign", _) => {
